@@ -235,9 +235,13 @@ class PopAdapter(Adapter):
 class LLAdapter(Adapter):
     name = 'LogLikelihood'
 
-    def __init__(self):
+    def __init__(self, own=None):
         self._names = self._plain().get_parameter_names()
-        self.own = {'a': 'P2', 'b': 'Y1 Sigma', 'c': 'Y2 Sigma rel.'}
+        # default: one parameter of every sub-model; 'mech': the fixed set can cover ALL parameters of the mechanistic
+        # sub-model (the composite wraps / unwraps its sub-models on demand)
+        self.own = {'a': 'P2', 'b': 'Y1 Sigma', 'c': 'Y2 Sigma rel.'} if own is None else own
+        if own is not None:
+            self.name = type(self).name + '[all mechanistic parameters]'
 
     def _plain(self):
         mech = probes.ProbeMech(2, 2, tag='fixll')
@@ -411,6 +415,7 @@ class PPMAdapter(Adapter):
 def adapters():
     return [ErrAdapter('G'), ErrAdapter('M'), ErrAdapter('C'), ErrAdapter('L'), MechAdapter(False), MechAdapter(True),
             PopAdapter('gauss2'), PopAdapter('composed'), PopAdapter('covariate'), LLAdapter(), PMAdapter(),
+            LLAdapter({'a': 'P1', 'b': 'P2', 'c': 'Y2 Sigma base'}), PMAdapter({'a': 'P1', 'b': 'P2', 'c': 'Y1 Sigma'}),
             CtrlAdapter('indiv'), CtrlAdapter('pop'), PPMAdapter()]
 
 
